@@ -196,7 +196,7 @@ theorem view_of_kdrv {b b' : Bus} (h : KDrv b b') (hi : NamesInv b) : NamesInv b
 
 theorem kdrv_of_core {b b' : Bus} (h : KCore b b') : KDrv b b' := KMod.of_core _ h
 
-theorem step_runMethod_drv (t : Tx) (c : ConnId) (m : Msg) (w : Method) (hw : w ≠ .hello) :
+theorem step_runMethod_drv (t : Tx) (c : ConnId) (m : Msg) (w : Method) (hw : w ≠ .hello) (hw2 : w ≠ .becomeMonitor) :
     Step KDrv noFw t (runMethod t c m w).1 := by
   have reg : ∀ {t t' : Tx}, Step KReg noFw t t' → Step KDrv noFw t t' :=
     fun h => h.mono (fun _ _ h => KReg_to_KDrv h) (fun _ h => h)
@@ -248,8 +248,15 @@ theorem step_runMethod_drv (t : Tx) (c : ConnId) (m : Msg) (w : Method) (hw : w 
       | exact Step.refl (KMod.refl _) t
       | exact step_reply_drv _ _ _ _ _
       | exact tr (step_reply_drv t c m [] []) (step_mapBus (reply t c m [] []) _ (kdrv_updRules _ c _))
-  | becomeMonitor => exact Step.refl (KMod.refl _) t
-  | opaqueM => exact ⟨KMod.refl _ _, [.opaque c m.serial], rfl, by intro o ho; simp at ho; subst ho; trivial⟩
+  | becomeMonitor => exact absurd rfl hw2
+  | opaqueM =>
+    simp only [runMethod]
+    have hf := opaque_fold_frame (captureTargets t.bus none (some c) (stampDriver t.bus c (mkReturn m [] []))) m.serial t
+    refine ⟨?_, [.opaque c m.serial], ?_, by intro o ho; simp at ho; subst ho; trivial⟩
+    · show KDrv t.bus (Tx.emit _ _).bus
+      rw [emit_bus, hf.1]; exact KMod.refl _ _
+    · show (Tx.emit _ _).out = _
+      simp only [emit_out, hf.2]
 
 
 theorem inj_of_nodup_map {α β : Type} (f : α → β) : ∀ {l : List α}, (l.map f).Nodup →
@@ -384,44 +391,6 @@ theorem view_hello (t : Tx) (c : ConnId) (m : Msg) : ViewStep t.bus (hello t c m
   rename_i h _ _
   exact view_helloOk t c m (by simpa using h)
 
-theorem view_runMethod (t : Tx) (c : ConnId) (m : Msg) (w : Method) : ViewStep t.bus (runMethod t c m w).1.bus c := by
-  by_cases hw : w = .hello
-  · subst hw; exact view_hello t c m
-  · exact .of_kdrv c (step_runMethod_drv t c m w hw).bus
-
-theorem view_driverHandle (tbl : List IfaceRow) (t : Tx) (c : ConnId) (m : Msg) :
-    ViewStep t.bus (driverHandle tbl t c m).1.bus c := by
-  unfold driverHandle
-  dsimp only
-  repeat' split
-  all_goals first | exact view_runMethod _ _ _ _ | exact .refl _ _
-
-theorem view_toDriver (tbl : List IfaceRow) (t : Tx) (c : ConnId) (m : Msg) :
-    ViewStep t.bus (toDriver tbl t c m).1.bus c := by
-  unfold toDriver
-  rcases hcp : checkPolicy t.bus (some c) none none m with ⟨p, e⟩
-  dsimp only
-  have h0 : KDrv t.bus (t.setPending p).bus := kdrv_of_core (step_setPending (fw := noFw) t p).bus
-  cases e with
-  | some e => exact .of_kdrv c h0
-  | none =>
-    dsimp only
-    have h1 := view_driverHandle tbl (t.setPending p) c m
-    rcases hd : driverHandle tbl (t.setPending p) c m with ⟨t1, e1⟩
-    rw [hd] at h1
-    cases e1 with
-    | some e1 => exact h1.after_kdrv h0
-    | none => exact (h1.after_kdrv h0).then_kdrv (kdrv_of_core (step_dispatchMatches t1 _ _ _).bus)
-
-theorem view_finish (b : Bus) (r : Tx × Option Err) (c : ConnId) (m : Msg) (h : ViewStep b r.1.bus c) :
-    ViewStep b (finish r c m).1 c := by
-  obtain ⟨t, e⟩ := r
-  cases e with
-  | none => exact h
-  | some e => exact h.then_kdrv (kdrv_of_core (finish_bus_some t e c m))
-
-/-! ### disconnect, dispatch, step, run -/
-
 theorem names_map_congr {l : List Conn} {f : Conn → Conn} (h : ∀ x, (f x).id = x.id ∧ (f x).name = x.name) :
     (l.map f).map (fun x => (x.id, x.name)) = l.map (fun x => (x.id, x.name)) := by
   simp only [List.map_map]
@@ -441,6 +410,93 @@ theorem names_gcRules (b : Bus) (x : Conn) : names (gcRules b x) = names b ∧ (
       apply names_map_congr
       intro y; split <;> exact ⟨rfl, rfl⟩
 
+theorem names_of_kreg {b b' : Bus} (h : KReg b b') : names b' = names b := names_of_kdrv (KReg_to_KDrv h)
+
+theorem view_beMonitor (t : Tx) (c : ConnId) (rules : List MatchRule) :
+    names (beMonitor t c rules).bus = names t.bus ∧ (beMonitor t c rules).bus.minted = t.bus.minted ∧
+    cnt (beMonitor t c rules).bus = cnt t.bus := by
+  unfold beMonitor
+  split
+  · exact ⟨rfl, rfl, rfl⟩
+  · rename_i x _
+    have h1 : names (t.mapBus (installMonitorRules c rules)).bus = names t.bus := by
+      unfold Tx.mapBus installMonitorRules Bus.updConn names
+      apply names_map_congr
+      intro y; split <;> exact ⟨rfl, rfl⟩
+    have h2 := (step_releaseAll (t.mapBus (installMonitorRules c rules)) c x.owned).bus
+    have g := names_gcRules (releaseAll (t.mapBus (installMonitorRules c rules)) c x.owned).bus { x with monitorRules := rules }
+    refine ⟨?_, ?_, ?_⟩
+    · show names (joinMonitors c x rules _) = _
+      unfold joinMonitors Bus.updConn
+      have : names { (gcRules (releaseAll (t.mapBus (installMonitorRules c rules)) c x.owned).bus { x with monitorRules := rules }) with
+          conns := (gcRules (releaseAll (t.mapBus (installMonitorRules c rules)) c x.owned).bus { x with monitorRules := rules }).conns.map
+            fun y => if y.id == c then { y with rules := [], monitor := true } else y } =
+          names (gcRules (releaseAll (t.mapBus (installMonitorRules c rules)) c x.owned).bus { x with monitorRules := rules }) := by
+        unfold names
+        apply names_map_congr
+        intro y; split <;> exact ⟨rfl, rfl⟩
+      rw [this, g.1, names_of_kreg h2, h1]
+    · show (joinMonitors c x rules _).minted = _
+      unfold joinMonitors Bus.updConn
+      show (gcRules _ _).minted = _
+      rw [g.2.1, h2.2.2.2.2.2]; rfl
+    · show cnt (joinMonitors c x rules _) = _
+      unfold joinMonitors Bus.updConn
+      show cnt (gcRules _ _) = _
+      rw [g.2.2]; unfold cnt; rw [h2.2.1, h2.2.2.1]; rfl
+
+theorem view_runMethod (t : Tx) (c : ConnId) (m : Msg) (w : Method) : ViewStep t.bus (runMethod t c m w).1.bus c := by
+  by_cases hw : w = .hello
+  · subst hw; exact view_hello t c m
+  · by_cases hw2 : w = .becomeMonitor
+    · subst hw2
+      simp only [runMethod]
+      repeat' split
+      all_goals first
+        | exact .refl _ _
+        | (rename_i rules _
+           have hb := view_beMonitor (reply t c m [] []) c rules
+           have hr := (step_reply_drv t c m [] []).bus
+           exact (ViewStep.of_kdrv c hr).then_same hb.1 hb.2.1 hb.2.2)
+    · exact .of_kdrv c (step_runMethod_drv t c m w hw hw2).bus
+
+theorem view_driverHandle (tbl : List IfaceRow) (t : Tx) (c : ConnId) (m : Msg) :
+    ViewStep t.bus (driverHandle tbl t c m).1.bus c := by
+  unfold driverHandle
+  dsimp only
+  repeat' split
+  all_goals first | exact view_runMethod _ _ _ _ | exact .refl _ _
+
+theorem view_toDriverCore (tbl : List IfaceRow) (t : Tx) (c : ConnId) (m : Msg) :
+    ViewStep t.bus (toDriverCore tbl t c m).1.bus c := by
+  unfold toDriverCore
+  rcases hcp : checkPolicy t.bus (some c) none none m with ⟨p, e⟩
+  dsimp only
+  have h0 : KDrv t.bus (t.setPending p).bus := kdrv_of_core (step_setPending (fw := noFw) t p).bus
+  cases e with
+  | some e => exact .of_kdrv c h0
+  | none =>
+    dsimp only
+    have h1 := view_driverHandle tbl (t.setPending p) c m
+    rcases hd : driverHandle tbl (t.setPending p) c m with ⟨t1, e1⟩
+    rw [hd] at h1
+    cases e1 with
+    | some e1 => exact h1.after_kdrv h0
+    | none => exact (h1.after_kdrv h0).then_kdrv (kdrv_of_core (step_dispatchMatches t1 _ _ _).bus)
+
+theorem view_toDriver (tbl : List IfaceRow) (t : Tx) (c : ConnId) (m : Msg) :
+    ViewStep t.bus (toDriver tbl t c m).1.bus c :=
+  view_toDriverCore tbl ({ t with mon := [] } : Tx) c m
+
+theorem view_finish (b : Bus) (r : Tx × Option Err) (c : ConnId) (m : Msg) (h : ViewStep b r.1.bus c) :
+    ViewStep b (finish r c m).1 c := by
+  obtain ⟨t, e⟩ := r
+  cases e with
+  | none => exact h
+  | some e => exact h.then_kdrv (kdrv_of_core (finish_bus_some t e c m))
+
+/-! ### disconnect, dispatch, step, run -/
+
 theorem names_clearRules (b : Bus) (c : ConnId) : names (clearRules b c) = names b ∧ (clearRules b c).minted = b.minted ∧
     cnt (clearRules b c) = cnt b := by
   refine ⟨?_, rfl, rfl⟩
@@ -448,7 +504,6 @@ theorem names_clearRules (b : Bus) (c : ConnId) : names (clearRules b c) = names
   apply names_map_congr
   intro y; split <;> exact ⟨rfl, rfl⟩
 
-theorem names_of_kreg {b b' : Bus} (h : KReg b b') : names b' = names b := names_of_kdrv (KReg_to_KDrv h)
 
 theorem view_disconnectTx (b : Bus) (c : ConnId) (x : Conn) :
     names (disconnectTx b c x).bus = (names b).filter (fun p => p.1 != c) ∧
@@ -492,16 +547,19 @@ theorem view_dispatch (tbl : List IfaceRow) (b : Bus) (c : ConnId) (m0 : Msg) : 
   unfold dispatch
   split
   · exact .refl _ _
-  · split
-    · exact view_disconnect b c
-    · dsimp only
-      split
-      · exact .refl _ _
+  · dsimp only
+    split
+    · exact .refl _ _
+    · split
+      · exact view_disconnect b c
       · split
-        · exact view_finish b _ c _ (view_toDriver tbl ({ bus := b } : Tx) c _)
+        · exact .refl _ _
         · split
-          · exact view_disconnect b c
-          · exact view_finish b _ c _ (.of_core c (step_route ({ bus := b } : Tx) c _).bus)
+          · exact (view_finish b _ c _ (view_toDriver tbl ({ bus := b } : Tx) c _)).then_kdrv
+              (kdrv_of_core (step_sweepMonitors _).bus)
+          · split
+            · exact view_disconnect b c
+            · exact view_finish b _ c _ (.of_core c (step_route ({ bus := b } : Tx) c _).bus)
 
 theorem not_mem_ids_of_conn_none {b : Bus} {c : ConnId} (h : (b.conn? c).isSome = false) : c ∉ (names b).map Prod.fst := by
   intro hm
